@@ -46,3 +46,11 @@ def extend(claim, NA):
           'Schedules as solver variables over the real code: restore thread bodies lifted from the source and run as cooperative generators under every schedule prefix; the real slot wrappers under latency/failure vectors; snapshot() recompiled from the source with the producer thread as a generator and pre-emption hooks inside the upload worker (incl. between the operands of its loop condition), compared with the sequential run.',
           'pre-emption at statement boundaries outside lock bodies (+ worker loop condition operands); schedule prefixes of length 10/7; 12 producer patterns x 5 latency patterns; real OS threads not explored.',
           'solver-exhausted schedule vectors (CrossHair realize + z3) over AST-instrumented thread bodies of the real code', '3/C09')
+    claim('C12',
+          'Claimed for the local backend, stream wrappers and requires_auth: fault point x number of consecutive OSErrors x operation x payload size x wrapping are digits of a symbolic vector exhausted by z3 through CrossHair over the real Local methods under the real backoff decorator; wrapper forwarding is traced with symbolic arguments (CrossHair+z3). S3/B2 HTTP retry paths are not claimed.',
+          'backoff waits stubbed; OSErrors injected at 7/6 points of a transfer; S3-compatible and B2 adapters outside the claim.',
+          'solver-exhausted fault vectors (CrossHair realize + z3) over the real local backend + symbolic execution of stream wrappers', '3/C12')
+    claim('C13',
+          'Claimed for the local backend: per-name action sequences and the repository path spelling are digits of a symbolic vector exhausted by z3 through CrossHair; the real backend is compared with a dict through exists/download/download_stream and list_files for 14 prefixes. Known finding F11 (names ending in .tmp are not listed). S3/B2 not claimed.',
+          '7 names, 7 action sequences per name, 9 spellings, 14 prefixes; S3-compatible and B2 adapters outside the claim.',
+          'solver-exhausted operation/spelling vectors (CrossHair realize + z3) against a reference map', '3/C13')
